@@ -497,6 +497,17 @@ impl Sim {
                 self.src_over = true;
                 "unit".into()
             }
+            ["deliver", "closemany", hs @ ..] => {
+                // the peer's Close, with more of its frames right behind it (sent before it noticed, or
+                // answers that crossed), and then the end of the connection: the wind-down dispatches them
+                self.ws.deliver(In::Msg(Message::Close));
+                for h in hs {
+                    self.ws.deliver(In::Msg(Message::Binary(Bytes::from(unhexz(h).expect("hex")))));
+                }
+                self.ws.end_source();
+                self.src_over = true;
+                "unit".into()
+            }
             ["deliver", "err2"] => {
                 // a receive half that reports its failure twice (a second error queued behind the first)
                 self.ws.deliver(In::Err);
